@@ -576,7 +576,7 @@ def plans_C08(g, tier):
             if w + s_ > (4 if tier == 'quick' else 5):
                 continue
             for order in interleavings(w, s_):
-                for fn, act in ((F1, 'RET'), (V1, 'NONE'), (R1, 'RETREF'), (CR1, 'RETCAP'), (F1, 'THROW_INT'), (F1, 'THROW_STD')):
+                for fn, act in ((F1, 'RET'), (V1, 'NONE'), (R1, 'RETREF'), (CR1, 'RETCAP'), (F1, 'THROW_INT'), (F1, 'THROW_STD'), (V1, 'THROW_INT')):   # THROW on a void function too
                     if act in ('THROW_STD', 'RETCAP') and (w + s_) > 2:
                         continue
                     clauses = order + 'T' + ('A' if act != 'NONE' else '')
